@@ -140,6 +140,40 @@ def gen_cases(tier, seed):
             terms = [first, t2]
             assump = {'real': nm_ == 'V', 'sym_tensors': ['w2'] if nm_ == 'w2'
                       else [], 'antisym_tensors': []}
+        elif comp and not unit_diff and r.random() < 0.06:
+            # a bra-ket antisymmetric tensor with a target and a contracted index
+            # both in the bra and in the ket: exchanging the names of the two
+            # contracted indices flips the stored orientation of the tensor
+            # (d^{la}_{kb} = -d^{kb}_{la}); the renamed copy must still be merged
+            nm_ = r.choice(['g', 'h2'])
+            csp, tsp = r.choice([('ijkl', 'abcd'), ('abcd', 'ijkl'),
+                                 ('ijkl', 'ijkl'), ('abcd', 'abcd')])
+            K, L = r.sample(list(csp), 2)
+            A, B = r.sample([x_ for x_ in tsp if x_ not in (K, L)], 2)
+            up, lo = ([K, A], [L, B]) if r.random() < 0.5 else ([A, K], [B, L])
+            if r.random() < 0.3:
+                up, lo = [K], [B]      # rank (1,1): contracted bra, target ket
+            big = {'t': 'anti', 'name': nm_, 'up': up, 'lo': lo, 'bk': 0}
+            sx, sy = r.choice([('x', 'y'), ('z', 'z2'), ('x', 'x')])
+            objs = [big, {'t': 'non', 'name': sx, 'up': [K]}]
+            if L in lo:
+                objs.append({'t': 'non', 'name': sy, 'up': [L]})
+            first = {'pref': r.choice(['1', '2', '-1/2']), 'objs': objs}
+            targets = ir.term_targets(first)
+            t2 = ir.rename_term(first, {K: L, L: K}) if L in lo else \
+                ir.rename_term(first, {K: r.choice([x_ for x_ in csp
+                                                    if x_ not in (K, A, B)])})
+            sign = 1
+            if r.random() < 0.4:
+                spin = False
+                g = ExprGen(r, cat, spin=False, deltas=0.0, general=0.0)
+                t2, sign, _ = g.alpha_rename(t2, targets)
+            c = r.choice(['1', '-1', '2', '1/3'])
+            t2['pref'] = f"({first['pref']})*({c})*({sign})"
+            terms = [first, t2]
+            spin = False
+            assump = {'real': False, 'sym_tensors': [],
+                      'antisym_tensors': [nm_]}
         elif comp and not unit_diff and r.random() < 0.07:
             # repeated identical tensors: the partner needs a swap of two indices
             # that carry the same name and the same pattern in both terms
